@@ -456,7 +456,17 @@ def src_block(block, data, body=False):
     for op in ops:
         if pure_rec(op):
             continue
-        if isinstance(op, accfg.SetupOp):
+        if isinstance(op, accfg.SetupOp) and op.accelerator.data in _RACC:
+            from snaxc.inference.trace_acc_state import infer_state_of
+            prev = None
+            if op.in_state is not None:
+                prev = [[k, var_id(v, data)] for k, v in infer_state_of(op.in_state).items()]
+            out.append(["setupr", op.accelerator.data, [[n, var_id(v, data)] for n, v in op.iter_params()], prev])
+        elif isinstance(op, accfg.LaunchOp) and op.accelerator.data in _RACC:
+            out.append(["launchr", op.accelerator.data, [[n, var_id(v, data)] for n, v in op.iter_params()]])
+        elif isinstance(op, accfg.AwaitOp) and op.token.type.accelerator.data in _RACC:
+            out.append(["awaitr", op.token.type.accelerator.data])
+        elif isinstance(op, accfg.SetupOp):
             out.append(["setup", op.accelerator.data,
                         [[n, var_id(v, data), isinstance(v.type, builtin.IndexType)] for n, v in op.iter_params()]])
         elif isinstance(op, accfg.LaunchOp):
@@ -518,6 +528,16 @@ def tgt_block(block, data, body=False):
         _term(block)
         ops = ops[:-1]
     for op in ops:
+        # (uses by ops that are not in the IR — the replacement accfg.setup RoCC's lower_acc_setup builds and never
+        # inserts, cf. DC04b — do not count)
+        live_uses = [u for u in op.result.uses if u.operation.parent is not None] if isinstance(op, arith.ConstantOp) else []
+        if (isinstance(op, arith.ConstantOp) and _created(op, data) and live_uses
+                and all(isinstance(u.operation, llvm.InlineAsmOp) and u.operation.asm_string.data.startswith(".insn r CUSTOM_3")
+                        for u in live_uses)):
+            if op.value.value.data != 0 or str(op.value.type) != "i64":
+                raise ConvError("RoCC default constant is not 0 : i64")
+            out.append(["rocc", ["const0"]])
+            continue
         if isinstance(op, arith.ConstantOp) and _created(op, data):
             for u in op.result.uses:
                 if not (isinstance(u.operation, llvm.InlineAsmOp)
@@ -535,7 +555,17 @@ def tgt_block(block, data, body=False):
             continue
         if isinstance(op, llvm.InlineAsmOp):
             asm = op.asm_string.data
-            if asm == "nop":
+            if asm.startswith(".insn r CUSTOM_3, 0x3, "):
+                if not asm.endswith(" ,x0, $0, $1") or op.constraints.data != "r, r":
+                    raise ConvError(f"unexpected RoCC asm {asm} / {op.constraints.data}")
+
+                def rv(v):
+                    if isinstance(v.owner, arith.ConstantOp) and _created(v.owner, data):
+                        return "d0"
+                    return var_id(v, data)
+                out.append(["rocc", ["insn", int(asm[len(".insn r CUSTOM_3, 0x3, "):].split(" ")[0]),
+                                     rv(op.operands_[0]), rv(op.operands_[1])]])
+            elif asm == "nop":
                 out.append(["nop"])
             elif asm == "csrw $0, $1":
                 addr, aty = _const_val(op.operands_[0])
@@ -661,6 +691,7 @@ def launch_group_attrs(op):
 
 
 _GACC = {}
+_RACC = set()      # names of the module's instruction-configured (RoCC class) accelerators
 
 
 def module_decls(module, accs):
@@ -708,6 +739,22 @@ def run_ir(block, env, m):
             if op.predicate.value.data != 1:
                 raise NotImplementedError("cmpi predicate")
             env[op.result] = int(_val(env, op.lhs) != _val(env, op.rhs))
+        elif isinstance(op, (accfg.SetupOp, accfg.LaunchOp)) and m.get("rocc_hook") is not None:
+            # hybrid run: the accfg-level program, every setup / launch replaced by what the REAL per-op RoCC lowering
+            # emits for it (used when the whole pass cannot be run)
+            for o in m["rocc_hook"](op):
+                if isinstance(o, llvm.InlineAsmOp) and o.asm_string.data.startswith(".insn r CUSTOM_3, 0x3, "):
+                    f7 = int(o.asm_string.data.split(",")[2].strip())
+                    vs = []
+                    for x in o.operands_:
+                        if x in env:
+                            vs.append(env[x])
+                        elif isinstance(x.owner, arith.ConstantOp):
+                            vs.append(x.owner.value.value.data)
+                        else:
+                            raise Undef(f"use of undefined value %{x.name_hint}")
+                    m["ev"].append(("I", f7, vs[0], vs[1]))
+            env[op.results[0]] = "state"
         elif isinstance(op, accfg.SetupOp):
             for n, v in op.iter_params():
                 m["ev"].append(("F", op.accelerator.data, n, _val(env, v)))
@@ -805,9 +852,9 @@ def run_ir(block, env, m):
 ENVS = [(c0, c1, t) for c0 in (0, 1) for c1 in (0, 1) for t in ((0, 0, 1), (0, 2, 1), (1, 7, 3))]
 
 
-def run_func(f, envidx, gacc=None):
+def run_func(f, envidx, gacc=None, rocc_hook=None):
     c0, c1, (lb, ub, st) = ENVS[envidx]
-    m = {"ev": [], "gacc": gacc or {}}
+    m = {"ev": [], "gacc": gacc or {}, "rocc_hook": rocc_hook}
     env = dict(zip(f.body.block.args, [11, 22, 33, c0, c1, lb, ub, st]))
     run_ir(f.body.block, env, m)
     return m["ev"]
@@ -894,8 +941,13 @@ class C04(Prop):
                 yield c
         for c in self.malformed_cases(rng, 12 if quick else 60):
             yield c
+        def twin(c):
+            # the same program through the WHOLE pass, compared structurally with lowerBlock (per op above)
+            return {"kind": "lower", "accs": [{"acc": "gemmini"}], "mlir": c["mlir"], "pre": "rocc", "envs": c["envs"],
+                    **({"edge": True} if c.get("edge") else {})}
         for c in self.rocc_error_cases(rng, 12 if quick else 60):
             yield c
+            yield twin(c)
         n_rocc = 60 if quick else 1200
         made = 0
         tries = 0
@@ -905,6 +957,7 @@ class C04(Prop):
             if c is not None:
                 made += 1
                 yield c
+                yield twin(c)
 
     def gen_lower_case(self, rng):
         k = rng.random()
@@ -1316,6 +1369,8 @@ class C04(Prop):
             data = name_values(module)
             _GACC.clear()
             _GACC.update(group_accs(case["accs"]))
+            _RACC.clear()
+            _RACC.update(ACC_NAME[a["acc"]] for a in case["accs"] if a["acc"] == "gemmini")
             return [{"fn": "c04.lower", "args": {"decls": module_decls(module, case["accs"]),
                                                   "prog": src_block(get_func(module).body.block, data)}}]
         if kind == "rocc":
@@ -1369,6 +1424,10 @@ class C04(Prop):
     def compare(self, case, impl_out, model_out):
         if isinstance(impl_out, dict) and impl_out.get("raised") == "InvalidInput":
             return None      # not a program (only reachable from the shrinker)
+        if (case.get("pre") == "rocc" and isinstance(impl_out, dict) and impl_out.get("raised") == "ValueError"
+                and "insertion point must have a parent block" in str(impl_out.get("msg"))
+                and self._stateless_partial_uses_ctl_result(snaxrun.parse(case["mlir"]))):
+            return None      # DC04b: the real pass crashes (known finding, reported by the oracle); no output to compare
         if isinstance(impl_out, dict) and "raised" in impl_out:
             impl_out = {"raised": impl_out["raised"]}
         if canon_json(impl_out) == canon_json(model_out):
@@ -1418,6 +1477,12 @@ class C04(Prop):
             return bad
         if kind in ("lower", "rocc") and impl_out.get("raised") == "InvalidInput":
             return bad      # not a program (only reachable from the shrinker)
+        if kind == "lower" and case.get("pre") == "rocc":
+            if "raised" not in impl_out and impl_out.get("states", 0) != 0:
+                v(f"{impl_out['states']} accfg.state-typed values survive the lowering")
+            if case.get("edge") and "raised" in impl_out:
+                return bad      # hand-made error path: an error outcome (compared with the model)
+            return bad + self._oracle_rocc(dict(case, kind="rocc"))
         if kind == "lower":
             if "raised" in impl_out:
                 if not case.get("malformed"):
@@ -1580,24 +1645,54 @@ class C04(Prop):
             # DC04b: lower_acc_setup's default branch builds a replacement accfg.setup that is never inserted but
             # keeps uses of its operands; when such an operand is a result of a control-flow op that
             # DeleteAllStates rebuilds, the greedy driver visits the detached op and crashes
+            known = self._stateless_partial_uses_ctl_result(before)
+            if not known:
+                # not the known crash pattern: state the property on a hybrid run (accfg-level program with every
+                # setup / launch replaced by what the real per-op lowering emits for it)
+                r = self._rocc_hybrid(case, f, l)
+                if r:
+                    return bad + r
             bad.append({"what": f"convert-accfg-to-csr crashed on a well-formed RoCC program: ValueError: {ex}",
-                        "finding": "DC04b" if self._stateless_partial_uses_ctl_result(before) else None})
+                        "finding": "DC04b" if known else None})
             return bad
         if any(_is_state(r.type) for o in after.walk() for r in o.results) or count_states(after):
             bad.append({"what": "accfg.state values survive the RoCC lowering", "finding": None})
+        fb, fa = get_func(before), get_func(after)
+        return bad + self._rocc_runs(case, f, l, before, fb, lambda e: run_func(fa, e))
+
+    def _rocc_hybrid(self, case, f, l):
+        from snaxc.dialects import accfg
+        hyb = snaxrun.parse(case["mlir"])
+        acc_op, acc = snaxrun.fresh_ctx().get_acc_op_from_module("gemmini", hyb)
+
+        def hook(op):
+            try:
+                if isinstance(op, accfg.SetupOp):
+                    return acc.lower_acc_setup(op, acc_op)
+                return acc.lower_acc_launch(op, acc_op)
+            except (KeyError, AssertionError):
+                raise Undef("per-op lowering raised")
+        fh = get_func(hyb)
+        return self._rocc_runs(case, f, l, snaxrun.parse(case["mlir"]), get_func(snaxrun.parse(case["mlir"])),
+                               lambda e: run_func(fh, e, rocc_hook=hook), note=" [per-op lowering; the whole pass crashed]")
+
+    def _rocc_runs(self, case, f, l, before, fb, run_lowered, note=""):
+        bad = []
         f7_instr = {}
         for k, a in f:
             f7_instr.setdefault(a, k[:-4])
         l7 = {a for _, a in l}
-        fb, fa = get_func(before), get_func(after)
-        for e in case["envs"]:
+        # the fallback (note != "") looks at every environment: a shrunk case keeps one only
+        for e in (list(case["envs"]) + [x for x in range(len(ENVS)) if x not in case["envs"]]) if note else case["envs"]:
             try:
                 ta = run_func(fb, e)
             except Undef:
                 continue
             try:
-                tb = run_func(fa, e)
+                tb = run_lowered(e)
             except Undef as ex:
+                if note:
+                    continue
                 bad.append({"what": f"lowered RoCC IR uses an undefined value ({ex}) in env {ENVS[e]}", "finding": None})
                 break
             # accfg level: registers at each launch, launch operands
@@ -1644,7 +1739,7 @@ class C04(Prop):
                     if x is None and (y == 0 or ra["__clobbered"]):
                         continue      # never-set partner: default 0; undefined after a clobbering call
                     if x != y:
-                        stale = (f"launch {k}: instruction operand {n} carries {y}, in effect at accfg level: {x} (env {ENVS[e]})",
+                        stale = (f"launch {k}: instruction operand {n} carries {y}, in effect at accfg level: {x} (env {ENVS[e]}){note}",
                                  n if y == 0 else None)
                         break
                 lnames = [x[0] for x in l]
@@ -1705,7 +1800,7 @@ class C04(Prop):
             k += ":" + "+".join(a["acc"] for a in case["accs"]) + (":malformed" if case.get("malformed") else "")
             if carries_state_and_data(case["mlir"]):
                 k += ":state+2data"
-            if str(case.get("pre", "")).startswith("group:"):
+            if str(case.get("pre", "")).startswith("group:") or case.get("pre") == "rocc":
                 k += ":" + case["pre"]
         if isinstance(impl_out, dict) and "raised" in impl_out:
             k += ":raised:" + impl_out["raised"]
